@@ -12,7 +12,8 @@ Definition PermEquiv {A} (R : A -> A -> Prop) (l1 l2 : list A) : Prop :=
 
 (* ---------------------------------------------------------------- well-formedness *)
 (* entity ids are unique; the name / id indexes of acmelib refuse duplicates (C04) *)
-Definition wf_attrs (l : list rattr) : Prop := NoDup (map ra_eid l).
+Definition wf_attrs (l : list rattr) : Prop :=
+  NoDup (map ra_eid l) /\ Forall (fun a => NoDup (map (@fst Z string) (ra_vals a))) l.
 Definition wf_enum (e : sigenum) : Prop := NoDup (map ev_index (se_values e)).
 
 Inductive wf_sig : rsig -> Prop :=
